@@ -495,6 +495,25 @@ def main():
     if sess is not None:
         sess.close()
 
+    # the POW lemmas are facts about the exact power: check each against Python's integers on the special cases and
+    # their neighbours (a lemma that excluded a real (base, exponent, value) triple would make obligations vacuous)
+    pv, pf = stdmodels.pow_uf(64)
+    za, zb = z3.BitVec("la", 64), z3.BitVec("lb", 64)
+    lem = z3.And(*stdmodels.pow_lemmas(za, zb))
+    for base in (0, 1, -1, 2, -2, 3, -3, 7, MIN64, -MIN64 - 1):
+        for e in (0, 1, 2, 3, 31, 32, 62, 63, 64, 65, 1000, U32MAX):
+            exact = base ** e if (abs(base) < 2 or e <= 64) else None
+            fits = exact is not None and MIN64 <= exact <= -MIN64 - 1
+            s_ = z3.Solver()
+            s_.add(za == base, zb == e, pf(za, zb) == fits)
+            if fits:
+                s_.add(pv(za, zb) == exact)
+            s_.add(z3.Not(lem))
+            if s_.check() != z3.unsat:
+                C.validation_mismatch(f"POW lemma contradicts the exact power at base={base} exponent={e}")
+            else:
+                C.validated_against_impl()
+
     C.models_used |= stdmodels.USED
     C.finish()
 
